@@ -6,7 +6,9 @@
  R2 sound default: identifiers, memory and every operator outside the table yield the full range; a
     conditional yields the union of both arms; modulo is refined only for a single-valued modulus; slices
     mask-then-shift; composes OR the shifted parts
- (the interval arithmetic inside modularintervals.py is not decided)
+ R3 multi-wrap workers (x*y, x<<s): once their overflow test holds, the returned interval is independent of the operand
+    bounds (or the branch tests the operand span) - monotonicity is lost modulo 2^size
+ (the rest of the interval arithmetic inside modularintervals.py is not decided)
 """
 import ast
 
@@ -16,7 +18,8 @@ ER = "miasm/analysis/expression_range.py"
 MI = "miasm/analysis/modularintervals.py"
 LEVEL_TEXT = ("Table agreement between expression_range's operator handlers and ModularIntervals' methods (resolved down to "
               "the _range_* worker / the shift-rotate tag) and default-to-top rules for everything the analysis does not "
-              "model. The arithmetic of the workers is not decided.")
+              "model; overflow branches of the multiply / shift-left workers must not depend on the operand bounds. The rest of the "
+              "workers' arithmetic is not decided.")
 ASSUMPTIONS = ["CPython ast", "reference meaning of the IR operators as in doc/expression (OT-0)"]
 
 # IR operator -> (python operator class or method name, worker / tag the method must reach)
@@ -124,3 +127,50 @@ def run(ck):
     ck.ob("R2", "compose:or-shifted", ok, em.where(fn), "a compose's range must OR each part resized and shifted to its position")
     ok = any(isinstance(n, ast.Return) and norm(n.value) == "ModularIntervals(%s.size, [(int(%s), int(%s))])" % (ep, ep, ep) for n in walk_body(fn))
     ck.ob("R2", "int:singleton", ok, em.where(fn), "a constant's range must be the singleton of its value")
+
+    # ---------------------------------------------------------------- R3 multi-wrap overflow branches are operand-independent
+    # x*y and x<<s can exceed the modulus many times: once the overflow test holds, the extreme operands no longer bound the
+    # result (monotonicity is lost modulo 2^size), so what the branch returns may not be built from x_min/x_max/y_min/y_max -
+    # unless the branch itself tests the span of the operand interval (a single-wrap refinement)
+    ck.rule("R3", "after the overflow test of a multiply/shift-left worker the returned interval does not depend on the operand bounds", floor=2)
+    from sa.astutil import straightline_env
+    BOUNDS = set(["x_min", "x_max", "y_min", "y_max"])
+    for q, f in sorted(mm.funcs.items()):
+        if not q.startswith("ModularIntervals._range_"):
+            continue
+        pre_env = {}
+        for n in walk_body(f):
+            if not (isinstance(n, ast.If) and isinstance(n.test, ast.Compare) and len(n.test.ops) == 1 and isinstance(n.test.ops[0], (ast.Gt, ast.GtE))
+                    and "max_bound" in norm(n.test.comparators[0])):
+                continue
+            # the tested quantity, with the locals defined before the test substituted
+            par_body = getattr(n, "_parent", None)
+            sibs = getattr(par_body, "body", []) if par_body is not None else []
+            if n in getattr(par_body, "orelse", []):
+                sibs = par_body.orelse
+            before = sibs[:sibs.index(n)] if n in sibs else []
+            env0 = straightline_env(before)
+            lhs = n.test.left
+            if isinstance(lhs, ast.Name) and lhs.id in env0:
+                lhs = env0[lhs.id]
+            multi = any(isinstance(x, ast.BinOp) and isinstance(x.op, (ast.Mult, ast.LShift)) and (BOUNDS & set(
+                y.id for y in ast.walk(x) if isinstance(y, ast.Name))) for x in ast.walk(lhs))
+            if not multi:
+                continue
+            env = straightline_env(n.body, env0)
+            span_guard = any(isinstance(t, ast.If) and {"x_min", "x_max"} <= set(y.id for y in ast.walk(t.test) if isinstance(y, ast.Name))
+                             for t in walk_local(ast.Module(body=n.body, type_ignores=[])))
+            bad = []
+            for r_ in walk_local(ast.Module(body=n.body, type_ignores=[])):
+                if isinstance(r_, ast.Return) and r_.value is not None:
+                    names = set()
+                    for y in ast.walk(r_.value):
+                        if isinstance(y, ast.Name):
+                            if y.id in env and y.id not in BOUNDS:
+                                names |= set(z.id for z in ast.walk(env[y.id]) if isinstance(z, ast.Name))
+                            names.add(y.id)
+                    if names & BOUNDS:
+                        bad.append("%s (uses %s)" % (norm(r_.value)[:60], sorted(names & BOUNDS)))
+            ck.ob("R3", "%s:overflow-branch" % q.split(".")[-1], not bad or span_guard, mm.where(n),
+                  "after `%s` the result is built from the operand bounds: %s; an operand strictly inside the interval can wrap "
+                  "to a value outside it" % (norm(n.test), "; ".join(bad)))
